@@ -8,6 +8,7 @@ import (
 	"math/rand/v2"
 	"net"
 	"net/netip"
+	"strings"
 	"sync"
 	"time"
 
@@ -478,10 +479,24 @@ func (h *recHandler) take() []map[string]any {
 	return r
 }
 
+// c13ClientCfg: which keys the scripted peer signs with and where the client gets its own.
+type c13ClientCfg struct {
+	prefix     string                                            // case id prefix
+	hosts      [2]int                                            // host numbers in the property's address block
+	fetcher    *scion.Fetcher                                    // the client's DRKey fetcher
+	key        func(last *peer.ParsedSCION, mode string) []byte // key for a reply to the request `last`; modes "key:..." name other identities' keys
+	extraModes []string
+}
+
 func c13Client(r *ev.Run) {
+	c13ClientWith(r, c13ClientCfg{prefix: "c", hosts: [2]int{21, 22}, fetcher: scion.NewFetcher(nil),
+		key: func(*peer.ParsedSCION, string) []byte { return c13Key }})
+}
+
+func c13ClientWith(r *ev.Run, cfg c13ClientCfg) {
 	registerScriptedRealClock()
-	rng := r.Rng("c13c")
-	srvIP, cliIP := blockIP(r, 13, 21), blockIP(r, 13, 22)
+	rng := r.Rng("c13c" + cfg.prefix)
+	srvIP, cliIP := blockIP(r, 13, cfg.hosts[0]), blockIP(r, 13, cfg.hosts[1])
 	h := &recHandler{}
 	log := slog.New(h)
 	// scripted SCION peer whose replies carry an authenticator chosen by the current mode
@@ -523,7 +538,7 @@ func c13Client(r *ev.Run) {
 			return b
 		}
 		pkt.E2E = []*slayers.EndToEndOption{peer.NewAuthOption(c13SPIServer, 0)}
-		b, err := peer.SignPkt(pkt, c13Key)
+		b, err := peer.SignPkt(pkt, cfg.key(last, name))
 		if err != nil {
 			return nil
 		}
@@ -538,7 +553,7 @@ func c13Client(r *ev.Run) {
 			b[len(b)-48+2] ^= 0x10 // poll byte, after signing
 		case "client-direction-spi": // signed as if it were a request
 			pkt.E2E = []*slayers.EndToEndOption{peer.NewAuthOption(c13SPIClient, 0)}
-			b, _ = peer.SignPkt(pkt, c13Key)
+			b, _ = peer.SignPkt(pkt, cfg.key(last, "good"))
 		}
 		return b
 	}
@@ -551,11 +566,11 @@ func c13Client(r *ev.Run) {
 	p.srv = s
 	c := &client.SCIONClient{Log: log}
 	c.Auth.Enabled = true
-	c.Auth.DRKeyFetcher = scion.NewFetcher(nil)
+	c.Auth.DRKeyFetcher = cfg.fetcher
 	pth := handPath(rng, c05LIA, c05RIA, s.Addr, 0)
-	modes := []string{"bad-mac", "wrong-key", "payload-changed", "none", "other-spi", "client-direction-spi", "good"}
+	modes := append([]string{"bad-mac", "wrong-key", "payload-changed", "none", "other-spi", "client-direction-spi", "good"}, cfg.extraModes...)
 	for i := 0; i < r.Pick(140, 5000); i++ {
-		id := fmt.Sprintf("c%d", i)
+		id := fmt.Sprintf("%s%d", cfg.prefix, i)
 		if r.Only() != "" && r.Only() != id {
 			continue
 		}
@@ -594,7 +609,7 @@ func c13Client(r *ev.Run) {
 		}
 		_ = ts
 		k, ok := c05Identify(off, 1)
-		bad := mode == "bad-mac" || mode == "wrong-key" || mode == "payload-changed"
+		bad := mode == "bad-mac" || mode == "wrong-key" || mode == "payload-changed" || strings.HasPrefix(mode, "key:")
 		switch {
 		case !ok:
 			r.Violation("scion-client|wrong-value:reported offset corresponds to none of the datagrams sent", id, w)
@@ -639,17 +654,27 @@ func init() {
 		if r.Only() != "" {
 			env = append(env, "VERIF_ONLY="+r.Only())
 		}
-		if r.Only() == "" || r.Only()[0] != 'c' {
+		if r.Only() == "" || !strings.ContainsRune("cknre", rune(r.Only()[0])) {
 			c13Server(r)
+		}
+		if r.Only() == "" || r.Only()[0] == 'k' {
+			c13DRKey(r)
+		}
+		if r.Only() == "" || r.Only()[0] == 'n' {
+			c13NoDaemon(r)
 		}
 		if r.Only() == "" || r.Only()[0] == 'c' {
 			r.CrashViolation(r.RunLeg("plain", "c13client", 20*time.Minute, env), "scion-client")
 		}
-		r.Assume("DRKey replaced by the project's mock keys (USE_MOCK_KEYS=true): the host-to-host key is the zero key, so changes of ISD-AS/host addresses (bound through key derivation, not through the MAC input) are not asserted; hand-built paths, no control plane")
+		if r.Only() == "" || r.Only()[0] == 'e' || r.Only()[0] == 'r' {
+			r.CrashViolation(r.RunLeg("plain", "c13e2e", 20*time.Minute, append(env, "USE_MOCK_KEYS=false")), "scion-client")
+		}
+		r.Assume("byte-level legs: DRKey replaced by the project's mock keys (USE_MOCK_KEYS=true, the zero key); key-binding legs: real DRKey fetching from a scripted SCION daemon (gRPC) whose keys the harness can derive for every identity and epoch; hand-built paths, no control plane")
 		r.Assume("'definitely covered' bytes = UDP header and payload, authenticator timestamp/sequence, flow id, hop-field MACs, the MAC itself (scion library spao input)")
 		r.Finish("real SCION listeners (service port and end-host port) and dispatcher in a child process: requests over empty / 1..3-segment / one-hop paths with IPv4 and IPv6 host addresses, with and without the time service's authenticator (MAC computed independently with spao); "+
 			"authenticated requests unmodified (must be served, reply must carry the server SPI and verify) or with a covered byte changed (must not be served); another protocol's authenticator; SCMP echo and traceroute on all three sockets; "+
 			"packets for other end-host ports on the end-host port, the dispatcher and the service port; and the real SCION client with authentication against a scripted peer whose replies carry a good / bad-MAC / wrong-key / changed-payload / absent / foreign-SPI authenticator. "+
+			"Real DRKey fetching (no mock keys, scripted daemon): requests signed with the host-to-host key of their own (server ISD-AS, server host, client ISD-AS, client host, epoch) are served and the reply verifies under that key, requests signed with the key of an identity differing in one component / of the identity served just before (cached level-2 key) / of another epoch or protocol are not; the real client accepts only replies under its own key (not: roles exchanged, other host/ISD-AS, previous epoch, other protocol); real client and real listener fetching from the same daemon complete authenticated exchanges (basic and interleaved, several ISD-AS pairs); a listener without any daemon survives authenticated requests. "+
 			"Oracle: reply iff allowed, addressing exchanged, path = library reversal, payload intact, forwarding exactly as stated and never to port 30041, bad MACs never accepted. distinct_nontrivial = distinct (auth, mutation, socket, address family, path kind) and client outcomes", 14)
 	})
 }
